@@ -168,6 +168,10 @@ func cmdMemSize(args []string) error {
 				if n := operand(1); 6*n > 32*s.cost {
 					cs.Oracle = append(cs.Oracle, fmt.Sprintf("C20: KECCAK256 hashed %d bytes for %d gas", n, s.cost))
 				}
+			case s.op == 0xf5:
+				if n := operand(2); 6*n > 32*s.cost {
+					cs.Oracle = append(cs.Oracle, fmt.Sprintf("C20: CREATE2 hashed %d bytes of init code for %d gas", n, s.cost))
+				}
 			case s.op >= 0xa0 && s.op <= 0xa4:
 				if n := operand(1); 8*n > s.cost {
 					cs.Oracle = append(cs.Oracle, fmt.Sprintf("C20: opcode %02x logged %d bytes for %d gas", s.op, n, s.cost))
@@ -183,7 +187,7 @@ func cmdMemSize(args []string) error {
 			for _, x := range s.stack {
 				l.Big(x)
 			}
-			l.Close().N(s.before).N(s.after).N(s.cost)
+			l.Close().N(s.before).N(s.after).N(s.cost).Bool(env.Rules.IsShanghai)
 			lines = append(lines, l.String())
 			cases = append(cases, cs)
 			if hasMemFn(s.op) {
@@ -234,7 +238,14 @@ func memWalk(r *rng.R, cancun bool) []byte {
 		if r.Intn(4) == 0 {
 			ln = 0
 		}
-		switch r.Intn(9) {
+		switch r.Intn(10) {
+		case 9:
+			// creations over memory that mostly exists already (init code = zero-led memory content: STOP)
+			if r.Bool() {
+				b.Push(uint64(k)).Push(ln * 40).Push(uint64(r.Intn(int(pos) + 1))).Push(0).Op(0xf5, 0x50)
+			} else {
+				b.Push(ln * 40).Push(uint64(r.Intn(int(pos) + 1))).Push(0).Op(0xf0, 0x50)
+			}
 		case 0:
 			b.Push(pos).Op(asm.MLOAD, 0x50)
 		case 1:
@@ -260,7 +271,7 @@ func memWalk(r *rng.R, cancun bool) []byte {
 			}
 			b.Push(ln).Push(pos).Op(0xa0 + byte(t)) // LOGt
 		case 8:
-			b.Push(0).Push(pos).Op(0x3e) // RETURNDATACOPY of nothing: never expands, whatever the offset
+			b.Push(0).Push(0).Push(pos).Op(0x3e) // RETURNDATACOPY of nothing: never expands, whatever the offset
 		}
 	}
 	return b.Op(0x00).Bytes()
